@@ -132,8 +132,30 @@ def eval_water(case):
     return {"violations": viol, "outcome": "water", "evals": 1, "key": (T, p, S)}
 
 
+def eval_history(case):
+    """Same T and p for several gases back to back, in three call orders (see common.purity_violations)."""
+    from bluebonnet.fluids import gas  # noqa: PLC0415
+    from ..common import purity_violations  # noqa: PLC0415
+
+    calls = []
+    for p in case["pressures"]:
+        for g, cont, dry in case["gases"]:
+            nh = gas.make_nonhydrocarbon_properties(*cont)
+            tpc, ppc = gas.pseudocritical_point_Sutton(g, nh, dry)
+            T = case["T"]
+            calls += [("z_factor_DAK", gas.z_factor_DAK, (T, p, tpc, ppc)),
+                      ("density_DAK", gas.density_DAK, (T, p, tpc, ppc, g)),
+                      ("b_factor_DAK", gas.b_factor_DAK, (T, p, tpc, ppc)),
+                      ("compressibility_DAK", gas.compressibility_DAK, (T, p, tpc, ppc)),
+                      ("viscosity_Sutton", gas.viscosity_Sutton, (T, p, tpc, ppc, g))]
+    viol = purity_violations(calls)
+    for v in viol:
+        v["case"] = dict(case, call=v["case"])
+    return {"violations": viol[:3], "outcome": "history", "evals": len(calls) * 3}
+
+
 def evaluate(case):
-    return {"gas": eval_gas, "oil": eval_oil, "water": eval_water}[case["phase"]](case)
+    return {"gas": eval_gas, "oil": eval_oil, "water": eval_water, "history": eval_history}[case["phase"]](case)
 
 
 def cases(tier, seed):
@@ -155,7 +177,11 @@ def cases(tier, seed):
     for T, api, g, gor in itertools.product([80.0, 200.0, 350.0], apis, [0.56, 0.8, 1.3], [20.0, 650.0, 2500.0]):
         out.append({"phase": "oil", "T": T, "api": api, "gravity": g, "gor": gor,
                     "fractions": [0.1, 0.5, 0.9, 1.0, 1.5, 2.5]})
-    sal = [0.0, 5.0, 15.0, 25.0] + ([round(25 * off, 3)] if seed else [])
+    for T in ([150.0, 300.0] + ([80.0, 400.0] if thorough else [])):
+        out.append({"phase": "history", "T": T, "pressures": [500.0, 3000.0, 9000.0],
+                    "gases": [[0.6, [0.0, 0.0, 0.0], "dry gas"], [0.8, [0.03, 0.012, 0.018], "wet gas"],
+                              [0.6, [0.0, 0.0, 0.0], "wet gas"], [1.0, [0.0, 0.05, 0.0], "dry gas"]]})
+    sal = [0.0, 0.05, 0.5, 1.0, 2.0, 5.0, 15.0, 25.0] + ([round(25 * off, 3), round(off, 4)] if seed else [])
     for T, p, S in itertools.product([60.0, 200.0, 400.0], [14.7, 2000.0, 10000.0], sal):
         out.append({"phase": "water", "T": T, "p": p, "salinity": S})
     return out
@@ -171,7 +197,7 @@ def run(ctx):
         "rule": "one evaluation = one state point at which all identities of that phase are checked; "
                 "non-trivial = distinct fluid (parameter tuple) inside the correlation range with >= 1 state point",
         "samples": samples_of(cs),
-        "by_phase": {k: sum(1 for c in cs if c["phase"] == k) for k in ("gas", "oil", "water")},
+        "by_phase": {k: sum(1 for c in cs if c["phase"] == k) for k in ("gas", "oil", "water", "history")},
     }
     return ctx.finish("exploration", cov, [
         "constant-bearing identities (M_air, R, 62.37, brine polynomial) are held to 1e-4, relations between "
